@@ -43,6 +43,29 @@ def run(p, led, tier):
     led.rule("C20-R5", "expression table = statement's filter (not SILENCED ∧ not DORMANT ∧ (not CONDITIONAL ∨ named in context))", 50)
     led.rule("C20-R6", "rollback goes through the gated mutate with the original value of the latest approved record of that gene", 2)
 
+    # private fields by role: the mapping that holds a gene after construction / add_gene, the list that grows on a
+    # refused mutation, the mapping that changes when a gene is silenced
+    def _discover():
+        from ..fdai import Oracle
+        it = Interp(p, Oracle())
+        g1 = it.instantiate(gene, [], dict(name="g1", value=1, gene_type=it.enum_member(gtype, "STRUCTURAL"), default_expression=it.enum_member(elevel, "NORMAL")))
+        obj = it.instantiate(genome, [], dict(genes=[g1], allow_mutations=False, on_mutation=None, silent=True))
+        genes_f = [k for k, v in obj.fields.items() if isinstance(v, dict) and any(x is g1 for x in v.values())]
+        before = {k: (len(v) if isinstance(v, (list, dict)) else None) for k, v in obj.fields.items()}
+        it.call_fi(p.find_method(genome, "mutate"), [obj, "g1", 2, "why"], {})
+        log_f = [k for k, v in obj.fields.items() if isinstance(v, list) and before.get(k) is not None and len(v) == before[k] + 1]
+        snap = {k: freeze(v) for k, v in obj.fields.items() if isinstance(v, dict) and k not in genes_f}
+        sil = p.find_method(genome, "silence_gene")
+        expr_f = []
+        if sil is not None:
+            it.call_fi(sil, [obj, "g1"], {})
+            expr_f = [k for k, v in obj.fields.items() if isinstance(v, dict) and k in snap and freeze(v) != snap[k]]
+        if len(genes_f) != 1 or len(log_f) != 1 or len(expr_f) != 1:
+            raise AnchorError(f"Genome: could not identify the gene table / mutation log / expression table by behaviour (candidates {genes_f} / {log_f} / {expr_f})")
+        return genes_f[0], log_f[0], expr_f[0]
+    GENES, MLOG, EXPR = _discover()
+    led.extra["fields"] = dict(genes=GENES, mutation_log=MLOG, expression=EXPR)
+
     def mk(o, allow, cb, genes=(("g1", "STRUCTURAL", "NORMAL"),), trace=()):
         it = Interp(p, o)
         it.trace_calls = set(trace)
@@ -58,7 +81,7 @@ def run(p, led, tier):
         return it, obj
 
     def genes_snap(obj):
-        return freeze(obj.fields["_genes"])
+        return freeze(obj.fields[GENES])
 
     def approved_on_path(it):
         # the truthiness taken for the *value returned by* the approval callback (not the test that a callback is configured)
@@ -70,7 +93,7 @@ def run(p, led, tier):
             it, obj = mk(o, allow, cb)
             before = genes_snap(obj)
             h0 = None
-            nlog0 = len(obj.fields["_mutations"])
+            nlog0 = len(obj.fields[MLOG])
             m = p.find_method(genome, opname)
             try:
                 r = it.call_fi(m, [obj] + args_fn(it), {})
@@ -78,7 +101,7 @@ def run(p, led, tier):
                 if "on_mutation" in repr(e.exc):
                     return None
                 raise
-            log = obj.fields["_mutations"]
+            log = obj.fields[MLOG]
             return dict(ret=r, changed=genes_snap(obj) != before, approved=approved_on_path(it), newlog=[(x.fields.get("approved")) for x in log[nlog0:]],
                         decisions=list(it.decisions))
         return go
@@ -173,11 +196,32 @@ def run(p, led, tier):
     else:
         led.fail("C20-R1", key, f"{G}:{gene.node.lineno}", "Gene is no longer frozen: a stored value can be changed in place, bypassing the gate")
     nfw = 0
-    for fi, kind, node in package_attr_writes(p, "_genes", None):
-        if fi.cls is genome and fi.name in ("__init__", "add_gene", "mutate"):
-            continue
+    from ..resolve import Resolver
+    res_ = Resolver(p)
+    gated_entry = [m for m in (p.find_method(genome, n) for n in ("__init__", "add_gene", "mutate")) if m is not None]
+    gated = {g.key for m in gated_entry for g in res_.reachable_from(m)} | {m.key for m in gated_entry}
+    # … but nothing that is *also* reachable from another public method without passing through the gated three
+    for fi, kind, node in package_attr_writes(p, GENES, None):
+        if fi.key in gated and (fi.cls is genome or fi.module.rel == G):
+            outside = False
+            for m in genome.methods.values():
+                if m.name.startswith("_") or m in gated_entry:
+                    continue
+                seen, todo = {m.key}, [m]
+                while todo and not outside:
+                    g_ = todo.pop()
+                    for h, _c in res_.callees(g_):
+                        if h.key in seen or h.key in {x.key for x in gated_entry}:
+                            continue
+                        if h.key == fi.key:
+                            outside = True
+                            break
+                        seen.add(h.key)
+                        todo.append(h)
+            if not outside:
+                continue
         nfw += 1
-        led.fail("C20-R1", f"{fi.qual} ▸ {kind} _genes", where(fi, node), "gene table written outside __init__/add_gene/mutate (ungated writer)")
+        led.fail("C20-R1", f"{fi.qual} ▸ {kind} {GENES}", where(fi, node), "gene table written outside __init__/add_gene/mutate (ungated writer)")
     led.ok("C20-R1", "package ▸ writers of the gene table", "operon_ai/", f"{len(p.all_funcs)} functions scanned; {nfw} writer(s) outside Genome.__init__/add_gene/mutate")
     for cls_, fld in ((gene, "value"),):
         for fi, kind, node in package_attr_writes(p, "value", None):
@@ -197,10 +241,18 @@ def run(p, led, tier):
 
     # ---------------- R3 hash
     gh = p.find_method(genome, "get_hash")
-    reads = {n.attr for n in ast.walk(gh.node) if isinstance(n, ast.Attribute) and isinstance(n.value, ast.Name) and n.value.id == "self"}
+
+    def go_hash(o):
+        it, obj = mk(o, False, "none", genes=(("g1", "STRUCTURAL", "NORMAL"), ("g2", "REGULATORY", "HIGH")))
+        it.field_reads = set()
+        it.call_fi(gh, [obj], {})
+        return {f for c, f in it.field_reads if c == "Genome"}
+    reads = set()
+    for _, r_ in explore(go_hash, max_paths=50):
+        reads |= r_
     key = "Genome.get_hash ▸ inputs"
-    if reads == {"_genes"}:
-        led.ok("C20-R3", key, where(gh, gh.node), "reads self._genes only")
+    if reads == {GENES}:
+        led.ok("C20-R3", key, where(gh, gh.node), f"reads self.{GENES} only (instance fields read while the hash is computed, by interpretation)")
     else:
         led.fail("C20-R3", key, where(gh, gh.node), f"hash reads {sorted(reads)}: it changes (or fails to change) with something other than the gene table")
 
@@ -219,7 +271,7 @@ def run(p, led, tier):
                         return None
                     raise
                 same_obj = child is obj
-                pg, cg = obj.fields["_genes"], child.fields["_genes"]
+                pg, cg = obj.fields[GENES], child.fields[GENES]
                 diff = sorted(k for k in set(pg) | set(cg) if freeze(pg.get(k)) != freeze(cg.get(k)))
                 shared_table = cg is pg
                 return dict(parent_changed=freeze({k: v for k, v in obj.fields.items()}) != before, diff=diff, same=same_obj or shared_table,
@@ -251,7 +303,7 @@ def run(p, led, tier):
             for inctx in (False, True):
                 def go_e(o):
                     it, obj = mk(o, False, "none", genes=(("g1", t, "NORMAL"),))
-                    obj.fields["_expression"]["g1"].fields["level"] = it.enum_member(elevel, lv)
+                    obj.fields[EXPR]["g1"].fields["level"] = it.enum_member(elevel, lv)
                     ctx = {"g1": 1} if inctx else {}
                     cfgd = it.call_fi(ex, [obj, ctx], {})
                     return "g1" in cfgd
@@ -281,7 +333,7 @@ def run(p, led, tier):
     for allow in (False, True):
         def go_rb(o):
             it, obj = mk(o, allow, "none", trace=("Genome.mutate",))
-            log = obj.fields["_mutations"]
+            log = obj.fields[MLOG]
             log.append(it.instantiate(mcls, [], dict(gene_name="g1", original_value="v0", new_value="v1", approved=True)))
             log.append(it.instantiate(mcls, [], dict(gene_name="g1", original_value="v1", new_value="v2", approved=True)))
             log.append(it.instantiate(mcls, [], dict(gene_name="g1", original_value="v2", new_value="v3", approved=False)))
@@ -299,7 +351,7 @@ def run(p, led, tier):
             it.stubs["Genome.mutate"] = spy
             before = genes_snap(obj)
             r = it.call_fi(rb, [obj, "g1"], {})
-            return dict(ret=r, seen=seen, changed=genes_snap(obj) != before, value=obj.fields["_genes"]["g1"].fields["value"])
+            return dict(ret=r, seen=seen, changed=genes_snap(obj) != before, value=obj.fields[GENES]["g1"].fields["value"])
         paths = explore(go_rb, max_paths=50)
         key = f"Genome.rollback_mutation ▸ allow_mutations={allow}"
         probs = []
